@@ -1,60 +1,42 @@
 /-
-  C07: what `restart` rebuilds and what it loses.
+  C07 (part 1): what `restart` rebuilds, the cache-coherence invariant at block boundaries, and
+  `restart s ≈ s` at a boundary.
+
   `restart` reopens every ledger on its last committed version (`fin = chk = committed`), reloads the
-  active parameters from the committed parameter ledger, and resets `pending`, `blk`, `allDelegs`,
-  `lastVals`, `limiter` (as `NewStakeCtrler` does: `allDelegatees = nil`, hence `lastValidators`
-  empty, limiter nil).  The application hash is a function of the committed ledger versions (IAVL
-  roots are not modelled), so "reports that block's height and application hash" is: `lastHeight`
-  and every `hist` are unchanged.
+  active parameters from the committed parameter ledger, resets `pending`, `blk`, and the two
+  in-memory stake-controller fields that are NOT persisted: `allDelegs := []`, `limiter := {}`.
+  (`lastVals` IS persisted since the repair 4e17cf4 and survives.)  The application hash is a function
+  of the committed ledger versions (IAVL roots are not modelled), so "reports that block's height and
+  application hash" is: `lastHeight` and every `hist` are unchanged.
 -/
 import RigoProofs.C06Isolation
+import RigoProofs.C19Query
+import RigoProofs.C15Majority
 
 namespace Rigo
 namespace C07
 
-open C06 (eraseChk consEq)
+open C06 (eraseChk consEq E)
 
-/-- the state without the mempool views and without the three in-memory stake-controller fields
-    that `restart` resets -/
-def eraseVolatile (s : St) : St :=
-  { eraseChk s with allDelegs := [], lastVals := [], limiter := {} }
+/-- overwrite the two volatile stake-controller fields -/
+def W (A : List Delegatee) (L : Limiter) (s : St) : St := { s with allDelegs := A, limiter := L }
 
-theorem eraseVolatile_of_consEq {a b : St} (h : consEq a b) : eraseVolatile a = eraseVolatile b := by
-  unfold eraseVolatile; rw [show eraseChk a = eraseChk b from h]
+/-- the state without the mempool views and without the two in-memory stake-controller fields that
+    `restart` resets -/
+def eraseVolatile (s : St) : St := W [] {} (eraseChk s)
 
-/-- the parameter ledger's consensus view holds the parameters that become active at the next commit
-    (true at genesis; `applyProposals` writes both `params.fin[zeroHash]` and `pending`) -/
-def ParamsCoherent (s : St) : Prop := s.params.fin[zeroHash]? = some (s.pending.getD s.active)
+/-- agreement on everything except `chk` views, `allDelegs`, `limiter` -/
+def volEq (s₁ s₂ : St) : Prop := eraseVolatile s₁ = eraseVolatile s₂
 
-theorem getLast?_snoc_getD {α : Type} (l : List α) (a d : α) : (l ++ [a]).getLast?.getD d = a := by simp
+theorem volEq.refl (s : St) : volEq s s := rfl
+theorem volEq.symm {a b : St} (h : volEq a b) : volEq b a := Eq.symm h
+theorem volEq.trans {a b c : St} (h₁ : volEq a b) (h₂ : volEq b c) : volEq a c := Eq.trans h₁ h₂
 
-/-- right after a Commit, `restart` changes nothing but the mempool views and the three volatile
-    stake-controller fields -/
-theorem restart_after_commit (s : St) (b : BlockCtx) (hb : s.blk = some b) (hp : ParamsCoherent s) :
-    eraseVolatile (restart (commit s).1) = eraseVolatile (commit s).1 := by
-  unfold ParamsCoherent at hp
-  simp [commit, hb, restart, Led.reopen, Led.commit, Led.committed, eraseVolatile, eraseChk, hp]
+theorem volEq_of_consEq {a b : St} (h : consEq a b) : volEq a b := by
+  unfold volEq eraseVolatile; rw [show eraseChk a = eraseChk b from h]
 
-theorem restart_consEq {a b : St} (h : consEq a b) : consEq (restart a) (restart b) :=
-  (C06.step_consEq h .restart rfl).1
+/-! ### what restart keeps and rebuilds -/
 
-theorem exec_checks_consEq (s : St) (txs : List TxIn) : consEq (exec s (txs.map Op.check)) s := by
-  induction txs generalizing s with
-  | nil => exact consEq.refl s
-  | cons tx txs ih =>
-    rw [List.map_cons, exec_cons]
-    exact (ih _).trans (C06.checkTx_consEq s tx)
-
-/-- the same at every block boundary reached by a Commit followed by any number of CheckTx calls -/
-theorem restart_equiv_boundary (s : St) (b : BlockCtx) (hb : s.blk = some b) (hp : ParamsCoherent s)
-    (txs : List TxIn) :
-    eraseVolatile (restart (exec (commit s).1 (txs.map Op.check))) =
-      eraseVolatile (exec (commit s).1 (txs.map Op.check)) := by
-  have h1 := exec_checks_consEq (commit s).1 txs
-  rw [eraseVolatile_of_consEq (restart_consEq h1), eraseVolatile_of_consEq h1]
-  exact restart_after_commit s b hb hp
-
-/-- `Info` after a restart: same height, same committed versions of every ledger -/
 theorem restart_keeps_committed (s : St) :
     (restart s).lastHeight = s.lastHeight ∧
     (restart s).accts.hist = s.accts.hist ∧ (restart s).delegs.hist = s.delegs.hist ∧
@@ -62,44 +44,211 @@ theorem restart_keeps_committed (s : St) :
     (restart s).params.hist = s.params.hist ∧ (restart s).props.hist = s.props.hist ∧
     (restart s).fprops.hist = s.fprops.hist := ⟨rfl, rfl, rfl, rfl, rfl, rfl, rfl, rfl⟩
 
-/-- every view is the committed version after a restart -/
 theorem restart_views (s : St) :
     (restart s).accts.fin = s.accts.committed ∧ (restart s).accts.chk = s.accts.committed ∧
     (restart s).delegs.fin = s.delegs.committed ∧ (restart s).delegs.chk = s.delegs.committed ∧
     (restart s).params.fin = s.params.committed ∧ (restart s).props.fin = s.props.committed ∧
-    (restart s).pending = none ∧ (restart s).blk = none := ⟨rfl, rfl, rfl, rfl, rfl, rfl, rfl, rfl⟩
+    (restart s).pending = none ∧ (restart s).blk = none ∧ (restart s).lastVals = s.lastVals :=
+  ⟨rfl, rfl, rfl, rfl, rfl, rfl, rfl, rfl, rfl⟩
 
-/-! ### what is lost: `lastVals` -/
+/-- `restart` only looks at the non-volatile part -/
+theorem restart_eraseVolatile (s : St) : eraseChk (restart s) = eraseChk (restart (eraseVolatile s)) := rfl
 
-theorem restart_lastVals (s : St) : (restart s).lastVals = [] := rfl
-theorem restart_isValidator (s : St) (a : Hex) : (restart s).isValidator a = false := rfl
+theorem restart_consEq_of_volEq {a b : St} (h : volEq a b) : consEq (restart a) (restart b) := by
+  show eraseChk (restart a) = eraseChk (restart b)
+  rw [restart_eraseVolatile a, restart_eraseVolatile b, show eraseVolatile a = eraseVolatile b from h]
 
-/-- the limiter guard `lastVals.length ≥ 3` is off after a restart: every stake change passes -/
-theorem restart_limit_off (s : St) (e : Bool) (a : Hex) (t d : Int) :
-    (restart s).limit e a t d = .ok (restart s) := by
-  unfold St.limit; simp [restart_lastVals]
+/-! ### cache coherence at block boundaries -/
 
-/-- The heart of the known defect, on the EndBlock step itself: with one eligible delegatee `d`
-    that already is the (announced) validator, the continuously running node announces nothing,
-    the restarted node (empty `lastVals`) re-announces `d`. -/
-theorem updateValidators_after_restart_differs (s : St) (d : Delegatee) (hm : 1 ≤ s.active.maxValidatorCnt) :
-    (match updateValidators { s with allDelegs := [d], lastVals := [d] } with
-      | .ok (_, ups) => ups | .panic _ => []) = [] ∧
-    (match updateValidators { s with allDelegs := [d], lastVals := [] } with
-      | .ok (_, ups) => ups | .panic _ => []) = [(d.pub, d.total)] := by
-  have h1 : ¬ s.active.maxValidatorCnt < 0 := by omega
-  have h2 : List.take s.active.maxValidatorCnt.toNat [d] = [d] := by
-    have : 1 ≤ s.active.maxValidatorCnt.toNat := by omega
-    rcases hn : s.active.maxValidatorCnt.toNat with _ | n
-    · omega
-    · simp
-  constructor
-  · simp only [updateValidators, selectValidators, h1, if_false, h2, sortByAddr, List.mergeSort_singleton]
-    rw [validatorUpdates]
-    simp [validatorUpdates]
-  · simp only [updateValidators, selectValidators, h1, if_false, h2, sortByAddr, List.mergeSort_singleton,
-      List.mergeSort_nil]
-    simp [validatorUpdates]
+/-- every consensus view is the last committed version and no parameter change is pending -/
+structure Coherent (s : St) : Prop where
+  accts : s.accts.fin = s.accts.committed
+  delegs : s.delegs.fin = s.delegs.committed
+  frozen : s.frozen.fin = s.frozen.committed
+  rewards : s.rewards.fin = s.rewards.committed
+  params : s.params.fin = s.params.committed
+  props : s.props.fin = s.props.committed
+  fprops : s.fprops.fin = s.fprops.committed
+  pending : s.pending = none
+
+/-- between blocks: no open block, and (once something was committed) coherent -/
+def Idle (s : St) : Prop := s.blk = none ∧ (1 ≤ s.lastHeight → Coherent s)
+
+def PhaseInv : Phase → St → Prop
+  | .idle, s => Idle s
+  | _, s => Idle s ∨ s.blk.isSome = true
+
+theorem coherent_of_consEq {a b : St} (h : consEq a b) (hb : Coherent b) : Coherent a := by
+  have h' : eraseChk a = eraseChk b := h
+  have e1 := congrArg (fun s => (s.accts.fin, s.accts.hist)) h'
+  have e2 := congrArg (fun s => (s.delegs.fin, s.delegs.hist)) h'
+  have e3 := congrArg (fun s => (s.frozen.fin, s.frozen.hist)) h'
+  have e4 := congrArg (fun s => (s.rewards.fin, s.rewards.hist)) h'
+  have e5 := congrArg (fun s => (s.params.fin, s.params.hist)) h'
+  have e6 := congrArg (fun s => (s.props.fin, s.props.hist)) h'
+  have e7 := congrArg (fun s => (s.fprops.fin, s.fprops.hist)) h'
+  have e8 := congrArg (fun s => s.pending) h'
+  simp only [eraseChk, Prod.mk.injEq] at e1 e2 e3 e4 e5 e6 e7 e8
+  obtain ⟨c1, c2, c3, c4, c5, c6, c7, c8⟩ := hb
+  refine ⟨?_, ?_, ?_, ?_, ?_, ?_, ?_, ?_⟩ <;> simp_all [Led.committed]
+
+theorem idle_of_consEq {a b : St} (h : consEq a b) (hb : Idle b) : Idle a := by
+  have h' : eraseChk a = eraseChk b := h
+  have e1 : a.blk = b.blk := congrArg (fun s => s.blk) h'
+  have e2 : a.lastHeight = b.lastHeight := congrArg (fun s => s.lastHeight) h'
+  exact ⟨e1.trans hb.1, fun hl => coherent_of_consEq h (hb.2 (e2 ▸ hl))⟩
+
+theorem blk_of_frame {a b : St} (h : C19.frame a = C19.frame b) : a.blk.isSome = b.blk.isSome := by
+  have := congrArg C19.Frame.blkHeight h
+  simp only [C19.frame] at this
+  cases ha : a.blk <;> cases hb : b.blk <;> simp_all
+
+theorem deliverTx_noblk (s : St) (tx : TxIn) (hb : s.blk = none) :
+    deliverTx s tx = (s, { panic := "DeliverTx outside a block" }) := by
+  unfold deliverTx; rw [hb]
+
+theorem endBlock_noblk (s : St) (hb : s.blk = none) :
+    endBlock s = (s, { panic := "EndBlock outside a block" }) := by
+  unfold endBlock; rw [hb]
+
+theorem commit_noblk (s : St) (hb : s.blk = none) :
+    commit s = (s, { panic := "Commit outside a block" }) := by
+  unfold commit; rw [hb]
+
+theorem beginBlock_refused (s : St) (h : Header) (hh : h.height ≠ s.lastHeight + 1) :
+    beginBlock s h = (s, { panic := "BeginBlock: error block height" }) := by
+  rw [C06.beginBlock_eq, if_pos hh]
+
+theorem beginBlock_accepted_frame (s : St) (h : Header) (hh : h.height = s.lastHeight + 1) :
+    C19.frame (beginBlock s h).1 = { C19.frame s with blkHeight := some h.height } := by
+  rw [C06.beginBlock_eq, if_neg (by simpa using hh)]
+  have hg := C19.bbGov_frame s h
+  repeat' split
+  all_goals first
+    | exact hg
+    | (rw [C19.bbStake_frame, C19.bbElig_frame]; exact hg)
+    | (rw [C19.bbVotes_frame ‹C06.bbVotes _ _ _ = Res.ok _›, C19.bbStake_frame, C19.bbElig_frame]; exact hg)
+
+theorem beginBlock_accepted_blk (s : St) (h : Header) (hh : h.height = s.lastHeight + 1) :
+    (beginBlock s h).1.blk.isSome = true := by
+  have := congrArg C19.Frame.blkHeight (beginBlock_accepted_frame s h hh)
+  simp only [C19.frame] at this
+  cases hb : (beginBlock s h).1.blk <;> simp_all
+
+theorem commit_coherent (s : St) (b : BlockCtx) (hb : s.blk = some b) : Idle (commit s).1 := by
+  unfold commit; rw [hb]
+  refine ⟨rfl, fun _ => ?_⟩
+  refine ⟨?_, ?_, ?_, ?_, ?_, ?_, ?_, rfl⟩ <;> simp [Led.commit, Led.committed]
+
+theorem restart_idle (s : St) : Idle (restart s) :=
+  ⟨rfl, fun _ => ⟨rfl, rfl, rfl, rfl, rfl, rfl, rfl, rfl⟩⟩
+
+theorem phaseInv_step {p p' : Phase} {s : St} {op : Op} (hps : phaseStep p op = some p')
+    (h : PhaseInv p s) : PhaseInv p' (step s op).1 := by
+  have hchk : ∀ tx, PhaseInv p (checkTx s tx).1 := by
+    intro tx
+    have hc := C06.checkTx_consEq s tx
+    have hf := blk_of_frame (C19.checkTx_frame s tx)
+    cases p with
+    | idle => exact idle_of_consEq hc h
+    | inBlock => rcases h with h | h
+                 · exact Or.inl (idle_of_consEq hc h)
+                 · exact Or.inr (hf.trans h)
+    | ended => rcases h with h | h
+               · exact Or.inl (idle_of_consEq hc h)
+               · exact Or.inr (hf.trans h)
+  cases op with
+  | init g => cases p <;> simp [phaseStep] at hps
+  | check tx =>
+    have : p' = p := by cases p <;> simp [phaseStep] at hps <;> exact hps.symm
+    subst this; exact hchk tx
+  | begin_ hd =>
+    cases p <;> simp [phaseStep] at hps
+    subst hps
+    show Idle (beginBlock s hd).1 ∨ _
+    by_cases hh : hd.height = s.lastHeight + 1
+    · exact Or.inr (beginBlock_accepted_blk s hd hh)
+    · rw [beginBlock_refused s hd hh]; exact Or.inl h
+  | deliver tx =>
+    cases p <;> simp [phaseStep] at hps
+    subst hps
+    show Idle (deliverTx s tx).1 ∨ _
+    rcases h with h | h
+    · rw [deliverTx_noblk s tx h.1]; exact Or.inl h
+    · exact Or.inr ((blk_of_frame (C19.deliverTx_frame s tx)).trans h)
+  | end_ =>
+    cases p <;> simp [phaseStep] at hps
+    subst hps
+    show Idle (endBlock s).1 ∨ _
+    rcases h with h | h
+    · rw [endBlock_noblk s h.1]; exact Or.inl h
+    · exact Or.inr ((blk_of_frame (C19.endBlock_frame s)).trans h)
+  | commit =>
+    cases p <;> simp [phaseStep] at hps
+    subst hps
+    show Idle (commit s).1
+    rcases h with h | h
+    · rw [commit_noblk s h.1]; exact h
+    · cases hb : s.blk with
+      | none => rw [hb] at h; cases h
+      | some b => exact commit_coherent s b hb
+  | restart =>
+    cases p <;> simp [phaseStep] at hps
+    subst hps
+    exact restart_idle s
+
+theorem phaseInv_exec (ops : List Op) {p q : Phase} {s : St} (hp : phaseRun p ops = some q)
+    (h : PhaseInv p s) : PhaseInv q (exec s ops) := by
+  induction ops generalizing p s with
+  | nil => simp [phaseRun] at hp; subst hp; exact h
+  | cons op ops ih =>
+    unfold phaseRun at hp
+    cases hps : phaseStep p op with
+    | none => rw [hps] at hp; cases hp
+    | some p' =>
+      rw [hps] at hp
+      rw [exec_cons]
+      exact ih hp (phaseInv_step hps h)
+
+theorem initChain_idle (g : Genesis) : Idle (initChain g) := by
+  have hf := C19.initChain_frame g
+  have h1 : (initChain g).lastHeight = 0 := congrArg C19.Frame.lastHeight hf
+  have h2 := congrArg C19.Frame.blkHeight hf
+  simp only [C19.frame] at h2
+  refine ⟨?_, fun hl => by omega⟩
+  cases hb : (initChain g).blk <;> simp_all
+
+theorem reachable_of_boundary {g : Genesis} {s : St} (h : ReachableAtBoundary g s) : Reachable g s := by
+  obtain ⟨ops, hp, rfl⟩ := h
+  exact ⟨ops, C15.phaseRun_noinit ops _ _ hp, rfl⟩
+
+/-- at every block boundary of a well-phased history: no open block, and after the first commit
+    every consensus view equals the committed version and nothing is pending -/
+theorem boundary_idle {g : Genesis} {s : St} (h : ReachableAtBoundary g s) : Idle s := by
+  obtain ⟨ops, hp, rfl⟩ := h
+  exact phaseInv_exec ops hp (initChain_idle g)
+
+/-- `restart` reloads exactly the active parameters (every reachable state) -/
+theorem restart_active {g : Genesis} {s : St} (h : Reachable g s) : (restart s).active = s.active := by
+  have hw := (C15.govCore_reachable h).paramsW.1
+  show ((s.params.reopen).committed[zeroHash]?).getD s.active = s.active
+  have : (s.params.reopen).committed = s.params.committed := rfl
+  rw [this]
+  cases hc : s.params.committed[zeroHash]? with
+  | none => rfl
+  | some p => rw [hw p hc]; rfl
+
+/-- at a boundary after the first commit, `restart s` and `s` differ only in the mempool views,
+    `allDelegs` and `limiter` -/
+theorem restart_volEq {g : Genesis} {s : St} (h : ReachableAtBoundary g s) (hl : 1 ≤ s.lastHeight) :
+    volEq (restart s) s := by
+  obtain ⟨hb, hc⟩ := boundary_idle h
+  obtain ⟨c1, c2, c3, c4, c5, c6, c7, c8⟩ := hc hl
+  have ha := restart_active (reachable_of_boundary h)
+  have ha' : ((s.params.reopen).committed[zeroHash]?).getD s.active = s.active := ha
+  unfold volEq eraseVolatile W eraseChk restart
+  simp only [St.mk.injEq, Led.reopen, c1, c2, c3, c4, c5, c6, c7, c8, hb, and_self, true_and, and_true]
+  exact ha'
 
 end C07
 end Rigo
